@@ -57,3 +57,126 @@ theorem reshape2_zero_neg (l : List Int) (a b : Int) (ha : 0 < a) (hb : 0 < b) (
   simp [reshapeTarget, resolveZeros, prodInt_two, prodInt_one, prodInt_nil, h0, h1, h3, h5, hp, hd, hm, Ne.symm h1]
 
 end OV.C09
+
+namespace OV.C09
+
+/-- invariant of the three update steps: each entry is still `-1`, or the right product, or (first
+entry, `axis = 1` only) the copy marker `0`. -/
+def FGood (axis : Nat) (P0 P1 : Int) (ns : List Int) : Prop :=
+  ∃ a b, ns = [a, b] ∧ (a = -1 ∨ a = P0 ∨ (a = 0 ∧ axis = 1)) ∧ (b = -1 ∨ b = P1)
+
+theorem FGood.set0 {axis : Nat} {P0 P1 : Int} {ns : List Int} (h : FGood axis P0 P1 ns) :
+    FGood axis P0 P1 (setAt ns 0 P0) := by
+  obtain ⟨a, b, rfl, _, hb⟩ := h
+  exact ⟨P0, b, by simp [setAt], Or.inr (Or.inl rfl), hb⟩
+
+theorem FGood.set1 {axis : Nat} {P0 P1 : Int} {ns : List Int} (h : FGood axis P0 P1 ns) :
+    FGood axis P0 P1 (setAt ns 1 P1) := by
+  obtain ⟨a, b, rfl, ha, _⟩ := h
+  exact ⟨a, P1, by simp [setAt], ha, Or.inr rfl⟩
+
+theorem pySlice_to_nat {α} (l : List α) (n : Nat) (h : n ≤ l.length) :
+    pySlice l none (some (n : Int)) = l.take n ∧ pySlice l (some (n : Int)) none = l.drop n := by
+  have hc : pyClamp l.length (n : Int) = n := by
+    unfold pyClamp
+    have : ¬ ((n : Int) < 0) := by omega
+    simp only [this, if_false, Int.toNat_natCast]; omega
+  simp only [pySlice, hc, List.drop_zero, List.take_length, and_self]
+
+theorem flat_phase1_good (axis rank : Nat) (l : List Int) (hl : l.length = rank) (h : axis ≤ rank) :
+    FGood axis (prodInt (l.take axis)) (prodInt (l.drop axis)) (flatPhase1 (axis : Int) (some (rank : Int))) := by
+  unfold flatPhase1
+  by_cases h0 : axis = 0
+  · subst h0
+    exact ⟨1, -1, by simp, Or.inr (Or.inl (by simp [prodInt])), Or.inl rfl⟩
+  · by_cases h1 : axis = 1
+    · subst h1
+      exact ⟨0, -1, by simp, Or.inr (Or.inr ⟨rfl, rfl⟩), Or.inl rfl⟩
+    · have e0 : ¬ ((axis : Int) = 0) := by omega
+      have e1 : ¬ ((axis : Int) = 1) := by omega
+      simp only [e0, e1, if_false]
+      by_cases hr : axis = rank
+      · subst hr
+        refine ⟨-1, 1, by simp, Or.inl rfl, Or.inr ?_⟩
+        rw [← hl, List.drop_length]; rfl
+      · have : ¬ (some (axis : Int) = some (rank : Int)) := by
+          intro hc; simp only [Option.some.injEq] at hc; omega
+        simp only [this, if_false]
+        exact ⟨-1, -1, rfl, Or.inl rfl, Or.inl rfl⟩
+
+theorem flat_phase2_good {σ : String → Nat} {axis : Nat} {P0 P1 : Int} {ns : List Int} (out : Option Shape)
+    (hout : ∀ o, out = some o → Admits σ o [P0, P1]) (h : FGood axis P0 P1 ns) :
+    FGood axis P0 P1 (flatPhase2 out ns) := by
+  cases out with
+  | none => exact h
+  | some o =>
+    have ha := hout o rfl
+    match o, ha with
+    | [d0, d1], ha =>
+      simp only [Admits] at ha
+      simp only [flatPhase2, List.getElem?_cons_zero, List.getElem?_cons_succ]
+      have s0 : FGood axis P0 P1 (match (some d0 : Option Dim) with | some (Dim.known n) => setAt ns 0 n | _ => ns) := by
+        cases d0 with
+        | known n => simp only [Dim.Admits] at ha; rw [ha.1]; exact h.set0
+        | sym a => exact h
+        | unknown => exact h
+      cases d1 with
+      | known n => simp only [Dim.Admits] at ha; rw [ha.2.1]; exact s0.set1
+      | sym a => exact s0
+      | unknown => exact s0
+    | [], ha => simp only [Admits] at ha
+    | [_], ha => simp only [Admits] at ha; exact ha.2.elim
+    | _ :: _ :: _ :: _, ha => simp only [Admits] at ha; exact ha.2.2.elim
+
+theorem flat_phase3_good {σ : String → Nat} {axis : Nat} {ns : List Int} (s : Shape) (l : List Int)
+    (hs : Admits σ s l) (hax : axis ≤ s.length)
+    (h : FGood axis (prodInt (l.take axis)) (prodInt (l.drop axis)) ns) :
+    FGood axis (prodInt (l.take axis)) (prodInt (l.drop axis)) (flatPhase3 (some s) (axis : Int) ns) := by
+  obtain ⟨e1, e2⟩ := pySlice_to_nat s axis hax
+  simp only [flatPhase3, e1, e2]
+  have s0 : FGood axis (prodInt (l.take axis)) (prodInt (l.drop axis))
+      (match allInts (s.take axis) with | some c => setAt ns 0 (prodInt c) | none => ns) := by
+    cases hc : allInts (s.take axis) with
+    | none => exact h
+    | some c => rw [← allInts_admits hc (admits_take axis hs)]; exact h.set0
+  cases hc : allInts (s.drop axis) with
+  | none => exact s0
+  | some c => rw [← allInts_admits hc (admits_drop axis hs)]; exact s0.set1
+
+/-- The emitted target, evaluated by Reshape (allowzero=0) on a tensor without zero-size dims, is the
+Flatten result. -/
+theorem flatten_core {σ : String → Nat} (s : Shape) (out : Option Shape) (axis : Nat) (tgt : List Int)
+    (h : flattenTarget (some s) out (axis : Int) = some tgt) (hax : axis ≤ s.length)
+    (l : List Int) (hs : Admits σ s l) (hpos : ∀ d ∈ l, 0 < d)
+    (hout : ∀ o, out = some o → Admits σ o (flattenSpec l axis)) :
+    reshapeTarget l tgt false = some (flattenSpec l axis) := by
+  have hl := admits_length hs
+  have hnn : ¬ ((axis : Int) < 0) := by omega
+  simp only [flattenTarget, Option.map_some, hnn, if_false] at h
+  have good := flat_phase3_good (σ := σ) s l hs hax
+    (flat_phase2_good out hout (flat_phase1_good axis s.length l hl.symm hax))
+  generalize flatPhase3 (some s) (axis : Int) (flatPhase2 out (flatPhase1 (axis : Int) (some (s.length : Int)))) = ns at h good
+  by_cases hcnt : (ns.filter (· == -1)).length > 1
+  · simp only [hcnt, if_true] at h; cases h
+  · simp only [hcnt, if_false, Option.some.injEq] at h
+    subst h
+    obtain ⟨a, b, rfl, ha, hb⟩ := good
+    have hP0 : 0 < prodInt (l.take axis) := prodInt_pos (fun d hd => hpos d (List.mem_of_mem_take hd))
+    have hP1 : 0 < prodInt (l.drop axis) := prodInt_pos (fun d hd => hpos d (List.mem_of_mem_drop hd))
+    have hp : prodInt l = prodInt (l.take axis) * prodInt (l.drop axis) := by
+      rw [← prodInt_append, List.take_append_drop]
+    have h0 : axis = 1 → l[0]? = some (prodInt (l.take axis)) := by
+      intro h1; subst h1
+      cases l with
+      | nil => simp only [List.length_nil] at hl; omega
+      | cons x t => simp [prodInt]
+    simp only [flattenSpec]
+    rcases ha with rfl | rfl | ⟨rfl, h1⟩ <;> rcases hb with rfl | rfl
+    · exact absurd (by decide) hcnt
+    · exact reshape2_neg_left l _ _ hP0 hP1 hp
+    · exact reshape2_neg_right l _ _ hP0 hP1 hp
+    · exact reshape2_lit l _ _ hP0 hP1 hp
+    · exact reshape2_zero_neg l _ _ hP0 hP1 hp (h0 h1)
+    · exact reshape2_zero_lit l _ _ hP0 hP1 hp (h0 h1)
+
+end OV.C09
